@@ -258,13 +258,13 @@ class AcctSim(object):
                 w_first = b.holdings_weights()
             except Exception as e:
                 self.violate("unexpected_exception", "{}: holdings_weights raised {!r} although every held position has a liquidation quote".format(tag, e),
-                             exc=type(e).__name__, where="holdings_weights_first")
+                             exc=core.exc_name(e), where="holdings_weights_first")
                 return None
         try:
             nlv = b.net_liquidation_value(raise_if_broke=False)
         except Exception as e:
             self.violate("unexpected_exception", "{}: net_liquidation_value raised {!r} although every held position has a liquidation quote".format(tag, e),
-                         exc=type(e).__name__, where="net_liquidation_value")
+                         exc=core.exc_name(e), where="net_liquidation_value")
             return None
         L.bump_scale()
         m = L.nlv()
@@ -307,7 +307,7 @@ class AcctSim(object):
                     vals_not = b.holdings_values("notional")
                 except Exception as e:
                     self.violate("unexpected_exception", "{}: weights/context raised {!r} with NLV {}".format(tag, e, nlv),
-                                 exc=type(e).__name__, where="holdings_weights")
+                                 exc=core.exc_name(e), where="holdings_weights")
                     return nlv
                 for i in range(L.n):
                     c = self.contracts[i]
@@ -439,7 +439,7 @@ class AcctSim(object):
             self.broker.transact(trade)
         except Exception as e:
             self.violate("unexpected_exception", "trade of {} {} raised {!r}".format(q, self.specs[i]["name"], e),
-                         exc=type(e).__name__, where="transact")
+                         exc=core.exc_name(e), where="transact")
             return {}
         px = ask if q > 0 else bid
         if trade.acq_price != px:
@@ -500,7 +500,7 @@ class AcctSim(object):
             try:
                 self.broker.marking_to_market()
             except Exception as e:
-                self.violate("unexpected_exception", "marking_to_market() raised {!r}".format(e), exc=type(e).__name__, where="marking_to_market")
+                self.violate("unexpected_exception", "marking_to_market() raised {!r}".format(e), exc=core.exc_name(e), where="marking_to_market")
                 return {}
             if "c05" in self.oracles:
                 pos, cash, margins = self.snapshot_getters()
@@ -510,7 +510,7 @@ class AcctSim(object):
             try:
                 self.broker.marking_to_market(self.contracts[i])
             except Exception as e:
-                self.violate("unexpected_exception", "marking_to_market(c) raised {!r}".format(e), exc=type(e).__name__, where="marking_to_market")
+                self.violate("unexpected_exception", "marking_to_market(c) raised {!r}".format(e), exc=core.exc_name(e), where="marking_to_market")
                 return {}
             if "c05" in self.oracles:
                 pos, cash, margins = self.snapshot_getters()
@@ -529,7 +529,7 @@ class AcctSim(object):
         try:
             amt = self.broker.accrued_interest(self.t, True)
         except Exception as e:
-            self.violate("unexpected_exception", "accrued_interest raised {!r}".format(e), exc=type(e).__name__, where="accrued_interest")
+            self.violate("unexpected_exception", "accrued_interest raised {!r}".format(e), exc=core.exc_name(e), where="accrued_interest")
             return {}
         self.L.interest += F(amt)
         return {"amt": amt}
@@ -884,7 +884,7 @@ class AcctSim(object):
                 try:
                     self.broker.rebalance(r2)
                 except Exception as e:
-                    self.violate("unexpected_exception", "second identical rebalance raised {!r}".format(e), exc=type(e).__name__, where="rebalance_again")
+                    self.violate("unexpected_exception", "second identical rebalance raised {!r}".format(e), exc=core.exc_name(e), where="rebalance_again")
                     return
                 L.interest += F(float(r2.profit_on_idle_cash))
                 self.probe("second_identical_rebalance")
